@@ -87,6 +87,16 @@ func main() {
 						}
 					case x < 42:
 						kmc.NextAddresses(names[r.Intn(len(names))], r.Intn(2) == 0, uint32(1+r.Intn(2)))
+					case x < 45:
+						// a digest of the wrong length is refused - and refused cleanly: everything else goes on
+						if lastKey != nil {
+							d := sha256.Sum256([]byte{byte(i)})
+							if _, err := kmc.SignHash(lastKey, d[:r.Intn(32)]); err == nil {
+								mu.Lock()
+								h.FailWith("C05:signed-short-digest", "SignHash accepted a digest shorter than 32 bytes", nil)
+								mu.Unlock()
+							}
+						}
 					case x < 55:
 						if lastKey != nil {
 							d := sha256.Sum256([]byte{byte(i)})
@@ -122,7 +132,17 @@ func main() {
 				}
 			}(w)
 		}
-		wg.Wait()
+		{
+			done := make(chan struct{})
+			go func() { wg.Wait(); close(done) }()
+			select {
+			case <-done:
+			case <-time.After(240 * time.Second):
+				h.FailWith("C14:operation-never-returns", fmt.Sprintf("round %d: %d goroutines x %d wallet operations (issue, addresses, sign incl. wrong-length digests, lookup, list, remark, export, lock, unlock) did not all return within 240 s: a wallet call blocks for good", round, workers, perWorker), nil)
+				h.Finish("concurrent rounds under the race detector; aborted: a wallet call never returned")
+				os.Exit(0)
+			}
+		}
 		// quiescent: in every serial order that ends with the wallet locked no private key is left in memory
 		// (keys issued before the last Lock were wiped by it, keys issued after it never had one)
 		lockedHoldsNothing := func(when string) {
